@@ -48,7 +48,12 @@ impl Distribution for Exponential {
     /// Uses the [inverse transform
     /// sampling](https://en.wikipedia.org/wiki/Inverse_transform_sampling) method.
     fn sample(&self) -> f64 {
-        -self.rng.sample().ln() / self.lambda
+        // the generator is uniform on [0, 1): a draw of exactly 0 has no image under the inverse cdf
+        let mut u = self.rng.sample();
+        while u == 0. {
+            u = self.rng.sample();
+        }
+        -u.ln() / self.lambda
     }
 }
 
